@@ -1,4 +1,4 @@
-"""C19 - state estimation: API existence clause.
+"""C19 - state estimation: API existence clause + measurement-order agreement.
 
 Decides: every attribute chain rooted at numpy/scipy that the estimation package (and, in
 thorough tier, every module it imports transitively inside pandapower) evaluates exists in the
@@ -7,6 +7,7 @@ is an AttributeError on the estimation path for every input, so "state estimatio
 false.  Does not decide the estimate itself.
 """
 import ast
+import re
 
 from ppsa import stubs
 from ppsa.astutil import dotted, norm
@@ -111,6 +112,267 @@ def estimation_closure(repo, deep):
     return sorted(seen)
 
 
+# ---------------------------------------------------------------------------------------------
+# MEAS-ORDER
+PPC = "pandapower.estimation.ppc_conversion"
+MB = "pandapower.estimation.algorithm.matrix_base"
+KIND_OF_COL = {"P": "pbus", "Q": "qbus", "P_FROM": "pfrom", "Q_FROM": "qfrom", "P_TO": "pto",
+               "Q_TO": "qto", "VM": "vm", "VA": "va", "IM_FROM": "ifrom", "IM_TO": "ito"}
+TABLE_OF_KIND = {"pbus": "bus", "qbus": "bus", "vm": "bus", "va": "bus"}
+# h(x): kind -> (numpy part function, quantity family, matrix attribute that must appear in the
+# definition of the quantity, bus selector that must appear)
+HX = {"pbus": ("real", "Ybus", None), "qbus": ("imag", "Ybus", None),
+      "pfrom": ("real", "Yf", "f_bus"), "qfrom": ("imag", "Yf", "f_bus"),
+      "pto": ("real", "Yt", "t_bus"), "qto": ("imag", "Yt", "t_bus"),
+      "vm": ("abs", None, None), "va": ("angle", None, None),
+      "ifrom": ("abs", "Yf", None), "ito": ("abs", "Yt", None)}
+
+
+def _col_kind(node):
+    """`bus_cols + P_STD` / `branch_cols + P_IDX` -> (offset name, kind)."""
+    if isinstance(node, ast.BinOp) and isinstance(node.op, ast.Add) and \
+            isinstance(node.left, ast.Name) and isinstance(node.right, ast.Name):
+        base = re.sub(r"_(IDX|STD)$", "", node.right.id)
+        return node.left.id, KIND_OF_COL.get(base)
+    return None, None
+
+
+def _ppci_pick(node):
+    """ppci["bus"][mask, bus_cols + P] -> (table, mask name, cols name, kind)."""
+    if not (isinstance(node, ast.Subscript) and isinstance(node.value, ast.Subscript)):
+        return None
+    t = node.value.slice
+    if not (isinstance(t, ast.Constant) and isinstance(node.slice, ast.Tuple) and len(node.slice.elts) == 2):
+        return None
+    m, c = node.slice.elts
+    cols, kind = _col_kind(c)
+    mask = m.id if isinstance(m, ast.Name) else None
+    return t.value, mask, cols, kind
+
+
+def _concat_elems(value):
+    """np.concatenate((a, b, ...))[.real.astype(..)] -> [a, b, ...]"""
+    for n in ast.walk(value):
+        if isinstance(n, ast.Call) and dotted(n.func) in ("np.concatenate", "numpy.concatenate") and n.args \
+                and isinstance(n.args[0], ast.Tuple):
+            return n.args[0].elts
+    return None
+
+
+def _assigns(fn):
+    out = {}
+    for st in ast.walk(fn):
+        if isinstance(st, ast.Assign) and len(st.targets) == 1 and isinstance(st.targets[0], ast.Name):
+            out.setdefault(st.targets[0].id, []).append(st)
+    return out
+
+
+def rule_meas_order(ctx):
+    rule = "MEAS-ORDER"
+    ctx.rule(rule, "z, r_cov, pp_meas_indices, imag_meas and the non-NaN mask dictionary in "
+                   "_build_measurement_vectors, h(x) in BaseAlgebra.create_hx and the Jacobian rows in "
+                   "create_hx_jacobian list the same ten measurement kinds in the same order; every "
+                   "block is selected with the mask of its own kind from the table of its kind, "
+                   "P blocks take the real and Q blocks the imaginary part of the from/to/bus power")
+    repo = ctx.repo
+    fb = repo.try_func(f"{PPC}:_build_measurement_vectors")
+    if fb is None:
+        ctx.fail("anchor vanished: ppc_conversion._build_measurement_vectors")
+        return
+    where = lambda fi, n: f"{fi.module.relpath}:{n.lineno}"
+    asg = _assigns(fb.node)
+    # 1. mask definitions: name -> (table, kind)
+    mask_def = {}
+    for name, sts in asg.items():
+        for st in sts:
+            v = st.value
+            if isinstance(v, ast.UnaryOp) and isinstance(v.op, ast.Invert) and isinstance(v.operand, ast.Call) \
+                    and dotted(v.operand.func) in ("np.isnan", "numpy.isnan") and v.operand.args:
+                a = v.operand.args[0]
+                if isinstance(a, ast.Subscript) and isinstance(a.value, ast.Subscript) and \
+                        isinstance(a.slice, ast.Tuple) and len(a.slice.elts) == 2:
+                    cols, kind = _col_kind(a.slice.elts[1])
+                    t = a.value.slice.value if isinstance(a.value.slice, ast.Constant) else None
+                    mask_def[name] = (t, cols, kind)
+    for name, (t, cols, kind) in sorted(mask_def.items()):
+        ok = kind is not None and t == TABLE_OF_KIND.get(kind, "branch") and cols == f"{t}_cols"
+        ctx.ob(rule, f"{PPC}::_build_measurement_vectors::mask:{name}", ok,
+               f"{name} = ~isnan(ppci[{t!r}][:, {cols} + <{kind}>])", fb.module.relpath)
+    # 2. the sibling vectors
+    order = None
+    for vec in ("z", "pp_meas_indices", "r_cov"):
+        sts = [s for s in asg.get(vec, []) if _concat_elems(s.value) and
+               len(_concat_elems(s.value)) >= 10 and _ppci_pick(_concat_elems(s.value)[0])]
+        if not sts:
+            ctx.fail(f"anchor vanished: {vec} = np.concatenate((...ten ppci picks...))")
+            continue
+        picks = [_ppci_pick(e) for e in _concat_elems(sts[0].value)]
+        kinds = []
+        for i, p in enumerate(picks):
+            key = f"{PPC}::_build_measurement_vectors::{vec}[{i}]"
+            if p is None:
+                ctx.ob(rule, key, False, "block is not a ppci[table][mask, cols + COL] pick", where(fb, sts[0]))
+                kinds.append(None)
+                continue
+            t, mask, cols, kind = p
+            md = mask_def.get(mask)
+            ok = kind is not None and md is not None and md == (t, cols, kind)
+            ctx.ob(rule, key, ok, f"ppci[{t!r}][{mask}, {cols} + <{kind}>]; mask defined on {md}",
+                   where(fb, sts[0]))
+            kinds.append(kind)
+        if order is None:
+            order = kinds
+        else:
+            ctx.ob(rule, f"{PPC}::_build_measurement_vectors::{vec}:order", kinds == order,
+                   f"{vec} blocks {kinds} vs z blocks {order}", where(fb, sts[0]))
+    if not order or None in order:
+        return
+    # imag_meas: np.zeros(sum(mask)) / np.ones(sum(mask)) in the same order; ones exactly for currents
+    for st in asg.get("imag_meas", []):
+        el = _concat_elems(st.value)
+        if not el or len(el) < 10:
+            continue
+        seq = []
+        for e in el:
+            fn = dotted(e.func) if isinstance(e, ast.Call) else None
+            inner = e.args[0] if isinstance(e, ast.Call) and e.args else None
+            m = inner.args[0].id if isinstance(inner, ast.Call) and inner.args and \
+                isinstance(inner.args[0], ast.Name) else None
+            seq.append((fn, mask_def.get(m, (None, None, None))[2]))
+        ks = [k for _, k in seq]
+        ctx.ob(rule, f"{PPC}::_build_measurement_vectors::imag_meas:order", ks == order,
+               f"imag_meas blocks {ks} vs z blocks {order}", where(fb, st))
+        cur = [k for f, k in seq if f and f.endswith("ones")]
+        ctx.ob(rule, f"{PPC}::_build_measurement_vectors::imag_meas:current-only",
+               cur == [k for k in order if k.startswith("i")], f"ones() blocks: {cur}", where(fb, st))
+        break
+    else:
+        ctx.fail("anchor vanished: imag_meas = np.concatenate(...)")
+    # 3. the mask dictionary
+    md_keys = None
+    for st in asg.get("meas_mask", []):
+        if isinstance(st.value, ast.Dict):
+            md_keys = []
+            for k, v in zip(st.value.keys, st.value.values):
+                kk = k.value if isinstance(k, ast.Constant) else None
+                m = v.args[0].id if isinstance(v, ast.Call) and v.args and isinstance(v.args[0], ast.Name) \
+                    and dotted(v.func) in ("np.flatnonzero", "numpy.flatnonzero") else None
+                got = mask_def.get(m, (None, None, None))[2]
+                ctx.ob(rule, f"{PPC}::_build_measurement_vectors::meas_mask[{kk}]", got == kk,
+                       f"meas_mask[{kk!r}] = flatnonzero({m}) which is the mask of <{got}>", where(fb, st))
+                md_keys.append(kk)
+    if md_keys is None:
+        ctx.fail("anchor vanished: meas_mask = {...}")
+    else:
+        ctx.ob(rule, f"{PPC}::_build_measurement_vectors::meas_mask:keys", set(md_keys) == set(order),
+               f"keys {md_keys}", fb.module.relpath)
+    # 4. h(x)
+    fh = repo.try_func(f"{MB}:BaseAlgebra.create_hx")
+    fj = repo.try_func(f"{MB}:BaseAlgebra.create_hx_jacobian")
+    if fh is None or fj is None:
+        ctx.fail("anchor vanished: BaseAlgebra.create_hx / create_hx_jacobian")
+        return
+    hasg = _assigns(fh.node)
+
+    def names_in(n):
+        return {x.id for x in ast.walk(n) if isinstance(x, ast.Name)} | \
+               {x.attr for x in ast.walk(n) if isinstance(x, ast.Attribute)}
+
+    def closure(name, depth=0):
+        out = set()
+        for st in hasg.get(name, []):
+            ns = names_in(st.value)
+            out |= ns
+            if depth < 3:
+                for x in ns:
+                    if x != name:
+                        out |= closure(x, depth + 1)
+        return out
+
+    comp_kind = {}
+    for name, sts in hasg.items():
+        for st in sts:
+            v = st.value
+            if isinstance(v, ast.Subscript) and isinstance(v.slice, ast.Subscript) and \
+                    isinstance(v.slice.value, ast.Name) and v.slice.value.id == "meas_mask" and \
+                    isinstance(v.slice.slice, ast.Constant) and isinstance(v.value, ast.Call):
+                k = v.slice.slice.value
+                if k not in HX:
+                    continue
+                part = dotted(v.value.func).split(".")[-1]
+                arg = v.value.args[0] if v.value.args else None
+                src = names_in(arg) | set().union(*[closure(x) for x in names_in(arg)]) if arg is not None else set()
+                epart, mat, sel = HX[k]
+                ok = part == epart and (mat is None or mat in src) and (sel is None or sel in src)
+                others = {"Ybus", "Yf", "Yt"} - ({mat} if mat else set())
+                if mat is not None and src & others:
+                    ok = False
+                ctx.ob(rule, f"{MB}::BaseAlgebra.create_hx::{k}", ok,
+                       f"{name} = {part}(..)[meas_mask[{k!r}]] built from {sorted(src & {'Ybus','Yf','Yt','f_bus','t_bus','V'})}; "
+                       f"expected {epart} of a quantity on {mat or 'V'}" + (f" at {sel}" if sel else ""),
+                       where(fh, st))
+                comp_kind[name] = k
+    hx_order = None
+    for st in hasg.get("hx", []):
+        v = st.value
+        if isinstance(v, ast.Subscript) and dotted(v.value) in ("np.r_", "numpy.r_") and isinstance(v.slice, ast.Tuple):
+            ks = [comp_kind.get(e.id) if isinstance(e, ast.Name) else None for e in v.slice.elts]
+            if len(ks) >= 10:
+                hx_order = ks
+                ctx.ob(rule, f"{MB}::BaseAlgebra.create_hx::hx:order", ks == order,
+                       f"hx blocks {ks} vs z blocks {order}", where(fh, st))
+    if hx_order is None:
+        ctx.fail("anchor vanished: hx = np.r_[ten blocks]")
+    # 5. Jacobian: order of the vstack'ed row blocks
+    jorder = []
+    SIDE = {"_dSbus_dv": ("bus", 2), "_dSbr_dv": (None, 2), "_dVmbus_dV": ("vm", 1), "_dVabus_dV": ("va", 1),
+            "_dImbr_dV": (None, 1)}
+    produced = {}
+
+    def mask_keys(call):
+        out = []
+        for a in call.args:
+            if isinstance(a, ast.Subscript) and isinstance(a.value, ast.Name) and a.value.id == "meas_mask" \
+                    and isinstance(a.slice, ast.Constant):
+                out.append(a.slice.value)
+        return out
+
+    for st in sorted((x for x in ast.walk(fj.node) if isinstance(x, ast.Assign)), key=lambda x: x.lineno):
+        if not isinstance(st.value, ast.Call):
+            continue
+        fn = dotted(st.value.func) or ""
+        meth = fn.split(".")[-1]
+        if fn.startswith("self.") and meth in SIDE:
+            keys = mask_keys(st.value)
+            if any(k not in HX for k in keys):
+                continue   # af-wls balance rows, not part of the ten blocks
+            side = next((a.value for a in st.value.args if isinstance(a, ast.Constant) and a.value in ("from", "to")), None)
+            tg = st.targets[0]
+            names = [e.id for e in tg.elts] if isinstance(tg, ast.Tuple) else [tg.id]
+            if meth == "_dSbus_dv":
+                exp = ["pbus", "qbus"]
+            elif meth == "_dSbr_dv":
+                exp = [f"p{side}", f"q{side}"]
+            elif meth == "_dImbr_dV":
+                exp = [f"i{side}"]
+            else:
+                exp = [SIDE[meth][0]]
+            ctx.ob(rule, f"{MB}::BaseAlgebra.create_hx_jacobian::{meth}:{side or ''}", keys == exp and len(names) == len(exp),
+                   f"{','.join(names)} = {meth}(V, {side!r}, masks {keys}); expected masks {exp}", where(fj, st))
+            for n_, k in zip(names, keys):
+                produced[n_] = k
+        elif fn in ("vstack",) and isinstance(st.targets[0], ast.Name) and st.targets[0].id == "jac" and \
+                st.value.args and isinstance(st.value.args[0], ast.Tuple):
+            el = st.value.args[0].elts
+            if el and isinstance(el[0], ast.Name) and el[0].id == "jac":
+                ks = [produced.get(e.id) for e in el[1:] if isinstance(e, ast.Name)]
+                if all(k in HX for k in ks):
+                    jorder += ks
+    ctx.ob(rule, f"{MB}::BaseAlgebra.create_hx_jacobian::jac:order", jorder == order,
+           f"Jacobian row blocks {jorder} vs z blocks {order}", fj.module.relpath)
+    ctx.require_min(rule, 45)
+
+
 def run(ctx):
     rule = "API"
     ctx.rule(rule, "every attribute chain rooted at an imported numpy/scipy module that the state-"
@@ -131,15 +393,48 @@ def run(ctx):
     v3, _ = stubs.resolve_chain("scipy", ["sparse", "linalg", "spsolve"])
     if (v1, v2) != ("ok", "missing") or v3 == "missing":
         ctx.fail(f"stub resolver control failed: {v1} {v2} {v3}")
+    rule_meas_order(ctx)
 
 
 def variants(repo):
     p = "pandapower/estimation/algorithm/matrix_base.py"
     p2 = "pandapower/estimation/algorithm/base.py"
+    p3 = "pandapower/estimation/ppc_conversion.py"
     return [
         Variant("isin->in1d", p, replace_once("np.isin(", "np.in1d("), "np.in1d"),
         Variant("LinAlgError path", p2, replace_once("np.linalg.LinAlgError", "np.linalg.linalg.LinAlgError"),
                 "np.linalg.linalg.LinAlgError"),
         Variant("np.float_ removed alias", p2, replace_once("np.abs(", "np.float_("), "np.float_"),
         Variant("twin: alias import", p, replace_once("np.isin(", "np.isin (", ), None),
+        Variant("hx Q-to block with P mask", p,
+                replace_once('Qte = np.imag(Ste)[meas_mask["qto"]]', 'Qte = np.imag(Ste)[meas_mask["pto"]]'), "hx:order"),
+        Variant("hx Q-from takes real part", p,
+                replace_once('Qfe = np.imag(Sfe)[meas_mask["qfrom"]]', 'Qfe = np.real(Sfe)[meas_mask["qfrom"]]'),
+                "create_hx::qfrom"),
+        Variant("hx to-flow built on Yf", p,
+                replace_once("Ste = V[t_bus] * np.conj(self.Yt * V)", "Ste = V[t_bus] * np.conj(self.Yf * V)"),
+                "create_hx::pto"),
+        Variant("hx blocks reordered", p,
+                replace_once("hx = np.r_[Pbuse, Qbuse, Pfe, Qfe, Pte, Qte,", "hx = np.r_[Pbuse, Qbuse, Pfe, Pte, Qfe, Qte,"),
+                "hx:order"),
+        Variant("jacobian to-side with from masks", p,
+                replace_once('self._dSbr_dv(V, "to", meas_mask["pto"], meas_mask["qto"])',
+                             'self._dSbr_dv(V, "to", meas_mask["pfrom"], meas_mask["qto"])'), "_dSbr_dv:to"),
+        Variant("jacobian va before vm", p,
+                replace_once('        dVm = self._dVmbus_dV(V, meas_mask["vm"])\n        jac = vstack((jac, dVm))\n', '') ,
+                "jac:order"),
+        Variant("r_cov q-from std from p column", p3,
+                replace_once('ppci["branch"][q_line_f_not_nan, branch_cols + Q_FROM_STD]',
+                             'ppci["branch"][q_line_f_not_nan, branch_cols + P_FROM_STD]'), "r_cov[3]"),
+        Variant("z picks with the wrong mask", p3,
+                replace_once('ppci["branch"][q_line_t_not_nan, branch_cols + Q_TO],',
+                             'ppci["branch"][p_line_t_not_nan, branch_cols + Q_TO],'), "z[5]"),
+        Variant("mask dict key swapped", p3,
+                replace_once('"ifrom" : np.flatnonzero(i_line_f_not_nan)', '"ifrom" : np.flatnonzero(i_line_t_not_nan)'),
+                "meas_mask[ifrom]"),
+        Variant("imag flag on voltage angle", p3,
+                replace_once("np.zeros(sum(v_degree_bus_not_nan))", "np.ones(sum(v_degree_bus_not_nan))"),
+                "imag_meas:current-only"),
+        Variant("twin: hx local renamed", p,
+                lambda s: s.replace("Qte", "Q_to_est"), None),
     ]
